@@ -198,6 +198,80 @@ def processConn (pm : ProcMap) : List (Request × HOutcome) → List (List Reply
     let o := process pm r.1 r.2
     if o.2.isOk && positionKept pm r.1 then o :: processConn pm t else [o]
 
+/-! ### User-supplied code that PANICS inside the request path, and the write mutex
+
+User code runs at five places of a request: the arguments' `Read`, a middleware before and
+after the handler, the handler, and the result's `Write`. Only the last runs while `writeMu` is
+held (inside `SendReply`). A panic unwinds `Process`; an embedding that recovers per request
+(net/http; any caller with `recover`) goes on serving. `SendReply` releases the mutex with
+`defer`, so the unwinding releases it too — `Exits.deferred` is the code, `Exits.manual`
+(Lock(); …; Unlock()) is the variant in which a panic under the mutex leaves it locked. -/
+
+inductive PanicPos where
+  | argsRead | mwBefore | handler | mwAfter
+  | resultWrite (k : Nat)    -- after k protocol writes of the result struct
+  deriving DecidableEq, Repr
+
+def PanicPos.underMutex : PanicPos → Bool
+  | .resultWrite _ => true
+  | _ => false
+
+inductive Exits where
+  | deferred | manual
+  deriving DecidableEq, Repr
+
+/-- A request, what its handler returns, and where (if anywhere) user code panics. -/
+structure MuReq where
+  rq : Request
+  ho : HOutcome
+  panicAt : Option PanicPos
+
+/-- Is the scripted panic position reached at all? (An unknown method runs no user code; an
+unreadable argument struct is answered before the handler runs; `result.Write` runs only for a
+REPLY of a two-way method.) -/
+def panicReached (pm : ProcMap) (r : MuReq) (p : PanicPos) : Bool :=
+  match r.rq.hdr with
+  | .ok h =>
+    (h.get? opIdHeader).isSome && r.rq.envOk &&
+      (match pm.find? r.rq.method with
+       | none => false
+       | some ms =>
+         match p with
+         | .argsRead => true
+         | .resultWrite _ => r.rq.args.readable && (methodReply ms h [] r.rq.method r.ho).any (·.kind = .reply)
+         | _ => r.rq.args.readable)
+  | _ => false
+
+inductive MuEnd where
+  | returned (r : List ReplyMsg × Res Unit)   -- `Process` returned
+  | panicked                                  -- unwound by a panic (recovered by the embedding)
+  | blocked                                   -- waits for `writeMu` for ever
+  deriving DecidableEq, Repr
+
+/-- Does the request write a message, i.e. take `writeMu`? -/
+def takesMutex (pm : ProcMap) (r : MuReq) : Bool :=
+  !(process pm r.rq r.ho).1.isEmpty || r.rq.out != .healthy
+
+/-- One request against the mutex (`locked` = held by nobody who will ever release it). -/
+def serveOne (ex : Exits) (pm : ProcMap) (locked : Bool) (r : MuReq) : MuEnd × Bool :=
+  match r.panicAt with
+  | some p =>
+    if panicReached pm r p then
+      if p.underMutex then
+        if locked then (.blocked, locked)
+        else (.panicked, ex = .manual)         -- deferred Unlock runs while unwinding; a manual one is skipped
+      else (.panicked, locked)
+    else if locked && takesMutex pm r then (.blocked, locked)
+    else (.returned (process pm r.rq r.ho), locked)
+  | none =>
+    if locked && takesMutex pm r then (.blocked, locked)
+    else (.returned (process pm r.rq r.ho), locked)
+
+/-- Requests served one after the other by ONE processor (any connections, any server). -/
+def serveAll (ex : Exits) (pm : ProcMap) (locked : Bool) : List MuReq → List MuEnd
+  | [] => []
+  | r :: t => (serveOne ex pm locked r).1 :: serveAll ex pm (serveOne ex pm locked r).2 t
+
 /-! ### Concurrent writers of one output protocol -/
 
 inductive GState where
